@@ -1361,11 +1361,12 @@ class ScenarioOutlineBuilder(object):
         for tag in outline_tags:
             if cls.is_parametrized_tag(tag):
                 tag = cls.render_template(tag, row, params)
-            if cls.is_parametrized_tag(tag):
-                # -- OOPS: Unknown placeholder, drop tag.
-                continue
-            new_tag = Tag.make_name(tag, unescape=True)
-            tags.append(new_tag)
+                if cls.is_parametrized_tag(tag):
+                    # -- OOPS: Unknown placeholder, drop tag.
+                    continue
+                # -- NORMALIZE: Only what was rendered from placeholder values.
+                tag = Tag.make_name(tag, unescape=True)
+            tags.append(tag)
         return tags
 
     @classmethod
